@@ -262,11 +262,13 @@ func (a Arith) parseLit(t IntT, s string) (*big.Int, bool) {
 // wrap (int mode): reduce an exact integer term into the range of t.
 func (a Arith) wrap(t IntT, x string) string {
 	m := pow2(t.Bits).String()
+	// the common case (no overflow) is kept free of mod so that the nonlinear
+	// core sees plain arithmetic
 	if !t.Signed {
-		return "(mod " + x + " " + m + ")"
+		return "(let ((wx " + x + ")) (ite (and (<= 0 wx) (< wx " + m + ")) wx (mod wx " + m + ")))"
 	}
 	h := pow2(t.Bits - 1).String()
-	return "(- (mod (+ " + x + " " + h + ") " + m + ") " + h + ")"
+	return "(let ((wx " + x + ")) (ite (and (<= (- " + h + ") wx) (< wx " + h + ")) wx (- (mod (+ wx " + h + ") " + m + ") " + h + ")))"
 }
 
 func (a Arith) inRange(t IntT, x string) string {
